@@ -229,12 +229,15 @@ let () =
         let op = match o with OS -> Solve | OF -> Satisfy | OA c -> AddConstraint c | OD (i, d) -> SetDesired (nat_of_int i, d) in
         (* the model run, with the proved invariants (VpscInvB.all_invb: book, act_inv, forest, trichotomy, block
            statistics) evaluated on EVERY state visited while executing this op; line "i k ok nstates mask" *)
-        let (r, (inv_ok, nst)) = step_chk all_invb fuel !s op in
+        (* the evaluation is quadratic in n per state: instances with more than 40 variables (the V-run set, n up to 300)
+           are run with plain `step` and print no "i" line *)
+        let check_inv = n <= 40 in
+        let (r, (inv_ok, nst)) = if check_inv then step_chk all_invb fuel !s op else (step fuel !s op, (true, O)) in
         let mask = if inv_ok then 0 else begin
           let bit p v = if fst (snd (step_chk p fuel !s op)) then 0 else v in
           bit bookb 1 + bit actb 2 + bit forestb 4 + bit trichotomyb 8 + bit statsb 16 + bit stats_liveb 32 end in
-        Printf.printf "i %d %d %d %d\n" k (if inv_ok then 1 else 0) (int_of_nat nst) mask;
-        if inst.id mod 16 = 0 then begin
+        if check_inv then Printf.printf "i %d %d %d %d\n" k (if inv_ok then 1 else 0) (int_of_nat nst) mask;
+        if check_inv && inst.id mod 16 = 0 then begin
           (* step_chk must compute what step computes (sampled: it doubles the cost) *)
           let same = (match r, step fuel !s op with
             | Ok a, Ok b -> final_positions a = final_positions b && a.cact = b.cact && a.cuns = b.cuns && a.vblk = b.vblk && a.inactive = b.inactive
